@@ -35,7 +35,7 @@
 (* "crash" with the innermost Refinery function and the panic message.     *)
 (* The ideal model (Faithful = FALSE) satisfies Answered.                  *)
 (***************************************************************************)
-EXTENDS Integers, FiniteSets, TLC, Json
+EXTENDS Integers, FiniteSets, Sequences, TLC, Json
 
 CONSTANTS
   Endpoints,   \* subset of AllEndpoints
@@ -48,6 +48,7 @@ CONSTANTS
   CondOps,     \* rule operators enumerated in condition vectors
   CondVals,    \* value kinds enumerated in condition vectors
   CondTypes,   \* datatypes enumerated in condition vectors
+  RuleKinds,   \* parameter kinds that are also enumerated for a sampler used downstream of a rule
   Faithful     \* TRUE: the deviations the real code is known to have are successors of Eval
 
 VARIABLES v, phase, outcome, why, act
@@ -61,7 +62,7 @@ AllEndpoints == {"event", "batch", "peer-batch", "otlp-http-traces", "otlp-http-
                  "otlp-grpc-traces", "otlp-grpc-logs", "proxy", "query"}
 AllCTypes == {"json", "msgpack", "protobuf", "absent", "junk"}
 AllComps  == {"none", "gzip", "zstd", "corrupt"}
-AllShapes == {"valid", "empty", "truncated", "subst", "wrongtop", "deep", "hugelen",
+AllShapes == {"valid", "empty", "truncated", "subst", "wrongtop", "deep", "hugelen", "lenbomb",
               "dupkeys", "nonstrkeys", "badutf8", "naninf", "exttypes"}
 AllHdrs   == {"nokey", "key", "odd"}
 
@@ -76,8 +77,11 @@ Native(ep) == CASE ep \in {"event", "batch", "peer-batch"} -> "json"
                 [] ep = "proxy" -> "json"
                 [] OTHER -> "protobuf"
 
-\* a GET /query/ has neither body nor content type; the proxy relays bodies unparsed
-ShapesOf(ep) == IF ep \in {"query", "proxy"} THEN Shapes \cap {"valid", "empty", "badutf8", "hugelen"} ELSE Shapes
+\* a GET /query/ has neither body nor content type; the proxy relays bodies unparsed; "lenbomb" (an
+\* element count a decoder may allocate from before it has seen the elements) exists in msgpack only
+ShapesOf(ep) == CASE ep \in {"query", "proxy"} -> Shapes \cap {"valid", "empty", "badutf8", "hugelen"}
+                  [] "msgpack" \in Speaks(ep) -> Shapes
+                  [] OTHER -> Shapes \ {"lenbomb"}
 CTypesOf(ep) == IF ep = "query" THEN {"absent"} ELSE CTypes
 CompsOf(ep)  == IF ep = "query" THEN {"none"} ELSE Comps
 
@@ -90,8 +94,10 @@ Req(e, c, z, s, h) == [kind |-> "req", ep |-> e, ctype |-> c, comp |-> z, shape 
 RequestsOf(e) == { Req(e, c, z, s, h) : c \in CTypesOf(e) \cup {Native(e)}, z \in CompsOf(e) \cup {"none"},
                                          s \in ShapesOf(e), h \in Hdrs \cup {"key"} }
 
+\* a lenbomb is one class per endpoint: declared as msgpack, uncompressed, with a key
 Requests == { x \in UNION { RequestsOf(e) : e \in Endpoints } :
-                ReqMode = "star" => Away(x.ep, x.ctype, x.comp, x.hdr) <= 1 }
+                /\ ReqMode = "star" => Away(x.ep, x.ctype, x.comp, x.hdr) <= 1
+                /\ x.shape = "lenbomb" => (x.ctype = "msgpack" /\ x.comp = "none" /\ x.hdr = "key") }
 
 -----------------------------------------------------------------------------
 (* configuration classes *)
@@ -141,7 +147,9 @@ Cfg(s, pl, p, x, d, k) == [kind |-> "cfg", ep |-> "-", ctype |-> "-", comp |-> "
                            sampler |-> s, place |-> pl, param |-> p, val |-> x, dt |-> d, valk |-> k]
 
 ParamVectors == UNION { { Cfg(s, pl, p, x, "-", "-") : x \in ValsOf(KindOf(p)) } : s \in CfgSamplers, pl \in {"top", "rule"}, p \in UNION { ParamsOf(t) : t \in CfgSamplers } }
-ParamOK(x) == x.param \in ParamsOf(x.sampler) /\ x.place \in PlacesOf(x.sampler)
+ParamOK(x) == /\ x.param \in ParamsOf(x.sampler)
+              /\ x.place \in PlacesOf(x.sampler)
+              /\ x.place = "rule" => KindOf(x.param) \in RuleKinds
 
 \* the unmodified baseline of every sampler, in both places
 BaseVectors == { Cfg(s, pl, "-", "-", "-", "-") : s \in CfgSamplers, pl \in {"top", "rule"} }
@@ -171,7 +179,46 @@ Vectors == Requests \cup Configs
 
 Dev(n, w) == [dev |-> n, outcome |-> "crash", why |-> w]
 
-KnownDevs(x) == {}
+IsCfg(x, p, y) == x.kind = "cfg" /\ x.param \in p /\ x.val \in y
+
+KnownDevs(x) ==
+  \* an empty field name in FieldList / Fields passes validation; config.GetKeyFields indexes its first character
+  (IF IsCfg(x, {"FieldList", "Fields"}, {"list-emptyelem", "list-mixedemptyelem"})
+     THEN {Dev("cfg-empty-field-name", "config.GetKeyFields: index out of range [N] with length N")} ELSE {})
+  \cup
+  \* a negative interval passes validation; dynsampler-go starts a ticker with it on a goroutine of its own
+  \* (EMAThroughput refuses to start instead, which Refinery ignores, and is then used unstarted)
+  (IF IsCfg(x, {"ClearFrequency", "AdjustmentInterval", "UpdateFrequency"}, {"dur-neg"})
+     THEN {Dev("cfg-negative-interval",
+               IF x.sampler = "EMAThroughputSampler"
+                 THEN "sample.(*EMAThroughputSampler).GetSampleRate: assignment to entry in nil map"
+                 ELSE "time.NewTicker: non-positive interval for NewTicker")} ELSE {})
+  \cup
+  \* a negative rate passes validation and ends in rand.Intn of a negative number
+  (IF /\ IsCfg(x, {"SampleRate", "GoalSampleRate", "InitialSampleRate"}, {"int-neg"})
+      /\ <<x.sampler, x.param>> \in {<<"DynamicSampler", "SampleRate">>, <<"EMADynamicSampler", "GoalSampleRate">>,
+                                      <<"EMAThroughputSampler", "InitialSampleRate">>}
+     THEN {Dev("cfg-negative-rate", "sample.(*" \o x.sampler \o ").GetSampleRate: invalid argument to Intn")} ELSE {})
+  \cup
+  \* 2^32 truncated to 32 bits is 0: MaxUint32 / 0
+  (IF IsCfg(x, {"SampleRate"}, {"int-wrap32"}) /\ x.sampler = "DeterministicSampler" /\ x.place = "top"
+     THEN {Dev("cfg-deterministic-rate-wraps", "sample.(*DeterministicSampler).Start: integer divide by zero")} ELSE {})
+  \cup
+  \* an environment (or a rule's Sampler) that names no sampler passes validation; the factory calls os.Exit(1)
+  \* when the first trace for it is decided
+  (IF IsCfg(x, {"Choice", "RuleSampler"}, {"obj-empty"})
+     THEN {Dev("cfg-no-sampler", "terminated: exit status 1")} ELSE {})
+  \cup
+  \* a null element in Rules / Conditions passes validation and becomes a nil pointer
+  (IF IsCfg(x, {"Rules"}, {"objs-nullelem"})
+     THEN {Dev("cfg-null-list-element", "sample.(*RulesBasedSampler).Start: invalid memory address or nil pointer dereference")} ELSE {})
+  \cup
+  (IF IsCfg(x, {"Conditions"}, {"objs-nullelem"})
+     THEN {Dev("cfg-null-list-element", "config.(*RulesBasedSamplerCondition).Init: invalid memory address or nil pointer dereference")} ELSE {})
+  \cup
+  \* a msgpack element count sizes an allocation before the elements have been seen: 5 to 8 bytes ask for terabytes
+  (IF x.kind = "req" /\ x.shape = "lenbomb"
+     THEN {Dev(IF x.ep = "event" THEN "req-msgpack-count-event" ELSE "req-msgpack-count-batch", "fatal: out of memory")} ELSE {})
 
 -----------------------------------------------------------------------------
 
@@ -221,8 +268,10 @@ ASSUME \A e \in Endpoints : \A s \in ShapesOf(e) : \E x \in Requests : x.ep = e 
 ASSUME \A e \in Endpoints : \A c \in CTypesOf(e) : \E x \in Requests : x.ep = e /\ x.ctype = c
 ASSUME \A e \in Endpoints : \A z \in CompsOf(e) : \E x \in Requests : x.ep = e /\ x.comp = z
 ASSUME \A e \in Endpoints : \A h \in Hdrs : \E x \in Requests : x.ep = e /\ x.hdr = h
-ASSUME \A s \in CfgSamplers : \A p \in ParamsOf(s) : \A y \in ValsOf(KindOf(p)) : \A pl \in PlacesOf(s) :
-          \E x \in Configs : x.sampler = s /\ x.param = p /\ x.val = y /\ x.place = pl
+ASSUME \A s \in CfgSamplers : \A p \in ParamsOf(s) : \A y \in ValsOf(KindOf(p)) :
+          \E x \in Configs : x.sampler = s /\ x.param = p /\ x.val = y /\ x.place = "top"
+ASSUME \A s \in CfgSamplers \cap LeafSamplers : \A p \in ParamsOf(s) : \A y \in ValsOf(KindOf(p)) :
+          KindOf(p) \in RuleKinds => \E x \in Configs : x.sampler = s /\ x.param = p /\ x.val = y /\ x.place = "rule"
 ASSUME Endpoints \subseteq AllEndpoints /\ CTypes \subseteq AllCTypes /\ Comps \subseteq AllComps
 ASSUME Shapes \subseteq AllShapes /\ Hdrs \subseteq AllHdrs /\ ReqMode \in {"star", "full"}
 ASSUME CondOps \subseteq AllOps /\ CondVals \subseteq AllCondVals /\ CondTypes \subseteq AllCondTypes
